@@ -34,8 +34,8 @@ OpqV(h) == [k |-> "opq", h |-> h]
 SetV(ml, items) == [k |-> "set", rec |-> FALSE, ml |-> ml, items |-> items, dang |-> <<>>]
 RecV(ml, items) == [k |-> "set", rec |-> TRUE, ml |-> ml, items |-> items, dang |-> <<>>]
 B(ap, v) == NewB(ap, v)
-BC(ap, v, lead, eol, blank) == [k |-> "b", ap |-> ap, val |-> v, lead |-> lead, eol |-> eol, blank |-> blank]
-Inh(names) == [k |-> "i", src |-> "", names |-> names, lead |-> <<>>, eol |-> "", blank |-> FALSE]
+BC(ap, v, lead, eol, blank) == [k |-> "b", ap |-> ap, val |-> v, lead |-> lead, eol |-> eol, blank |-> blank, lblank |-> FALSE]
+Inh(names) == [k |-> "i", src |-> "", names |-> names, lead |-> <<>>, eol |-> "", blank |-> FALSE, lblank |-> FALSE]
 
 D(wrap, layers, body) == [shape |-> "ok", wrap |-> wrap, layers |-> layers, body |-> body,
                           lead |-> <<>>, trail |-> <<>>, nl |-> 1, allc |-> <<>>]
